@@ -185,6 +185,41 @@ LOOP:
 	return nil
 }
 
+// startHeightInWAL is what OnStart runs instead of catchupReplay when the blocks
+// below csHeight were not committed by this consensus instance (block sync,
+// state sync). Nothing is replayed, but everything logged from now on belongs
+// to csHeight, so the WAL must contain #ENDHEIGHT for the height before it, as
+// it does after finalizeCommit. Without the marker the records of csHeight -
+// our own signed votes among them - could never be replayed after a crash.
+func (cs *State) startHeightInWAL(csHeight int64) error {
+	// Never append behind a torn record left by the crash that preceded the
+	// sync: it would swallow everything written after it. Reporting the
+	// corruption makes OnStart repair the head file and call us again.
+	if err := checkWALHeadDecodable(cs.config.WalFile()); err != nil {
+		return err
+	}
+
+	endHeight := csHeight - 1
+	if csHeight == cs.state.InitialHeight {
+		endHeight = 0
+	}
+	gr, found, err := cs.wal.SearchForEndHeight(endHeight, &WALSearchOptions{IgnoreDataCorruptionErrors: true})
+	if err != nil {
+		return err
+	}
+	if gr != nil {
+		if err := gr.Close(); err != nil {
+			return err
+		}
+	}
+	if found {
+		return nil
+	}
+
+	cs.Logger.Info("Starting consensus without WAL catchup; writing #ENDHEIGHT for the last block", "height", endHeight)
+	return cs.wal.WriteSync(EndHeightMessage{endHeight})
+}
+
 // checkWALHeadDecodable decodes the WAL head file to its end and returns the
 // DataCorruptionError of the first record that cannot be decoded, if any.
 func checkWALHeadDecodable(walFile string) error {
